@@ -295,7 +295,8 @@ func writeEvidence(verif, prop string, cfg PropConfig, res *Result, P *Program) 
 		"load_s":                   float64(res.LoadMs) / 1000,
 		"samples":                  res.Samples,
 		"undecided":                res.Undecided,
-		"vacuity_failures":         res.Vacuity,
+"block_coverage":           blockCoverage(res.Reports),
+				"vacuity_failures":         res.Vacuity,
 		"contract_files":           relFiles(P),
 		"bounded":                  cfg.Bounded,
 		"rule":                     "one named obligation per contract clause and program point class; an obligation counts as discharged only if every path instance is unsat",
@@ -381,4 +382,24 @@ func (cfg PropConfig) selects(o *Oblig) bool {
 		}
 	}
 	return false
+}
+
+// blockCoverage: the cover check behind the contracts - every basic block of every function under
+// contract has to be entered by some explored path (or be declared dead in its contract).
+func blockCoverage(reps []*FuncReport) map[string]any {
+	total, in, dead := 0, 0, 0
+	var missing []string
+	for _, r := range reps {
+		total += r.Blocks
+		in += r.BlocksIn
+		dead += r.BlocksDead
+		for _, u := range r.Unreached {
+			missing = append(missing, r.Func+": "+u)
+		}
+	}
+	if missing == nil {
+		missing = []string{}
+	}
+	return map[string]any{"blocks": total, "entered": in, "declared_dead": dead, "never_entered": missing,
+		"rule": "a block no explored path enters makes the check undecided unless the contract declares it dead"}
 }
